@@ -42,6 +42,22 @@ def run(tier):
                     break
             check.violation({"class": cls, "kind": o["kind"], "slot": slot},
                             {"instance": o, "expected": exp, "observed": got})
+    # Walk.tla's derived prescriptions: the same traverser object used again; one node object in every child slot
+    base = [o for o in inst if all(x in (0, 1, maxlen) for x in o["slots"])]
+    t2 = [{"op": "synth", "kind": o["kind"], "slots": o["slots"], "run": "traverse", "again": True} for o in base] + \
+         [{"op": "synth", "kind": o["kind"], "slots": o["slots"], "run": "traverse", "shared": True} for o in base]
+    for o, t, r in zip(base + base, t2, wp.run(t2)):
+        check.count()
+        if r.get("panic") or r.get("hang") or r.get("crash"):
+            check.violation({"class": "crash", "kind": o["kind"], "site": r.get("site")}, {"task": t, "observed": r})
+            continue
+        if t.get("again") and r.get("seq2") != o["expect"]:
+            check.violation({"class": "traverser-object-not-reusable", "kind": o["kind"], "slot": None}, {"instance": o, "first": r.get("seq"), "second": r.get("seq2")})
+        if t.get("shared"):
+            exp = ["N0.0" if x.startswith("N") else x for x in o["expect"]]
+            if r.get("seq") != exp:
+                check.violation({"class": "shared-child-not-visited-per-slot", "kind": o["kind"], "slot": None}, {"instance": o, "expected": exp, "observed": r.get("seq")})
+    check.cov["again_and_shared_instances"] = len(t2)
     check.sample({"direction": "spec->impl", "instance": inst[len(inst) // 3]})
     check.cov["kinds_covered"] = len(kinds)
     check.cov["traces_validated_against_impl"] += len(inst)
